@@ -147,7 +147,6 @@ fn fm_enum(n: usize, out: &mut Vec<Fm>, next_atom: &mut usize) {
 
 fn range_texts(attr: &str, lo: &str, hi: &str, li: bool, ui: bool) -> (String, String, String) {
     let p = if attr.is_empty() { String::new() } else { format!("{attr}:") };
-    // brackets must be of one kind for the parser; `li`/`ui` differing is expressed through two queries
     let range = format!("{p}{}{lo} TO {hi}{}", if li { "[" } else { "{" }, if ui { "]" } else { "}" });
     let lower = format!("{p}{}{lo}", if li { ">=" } else { ">" });
     let upper = format!("{p}{}{hi}", if ui { "<=" } else { "<" });
@@ -206,10 +205,6 @@ pub fn exec(op: &str, a: &[String]) -> Option<Reply> {
             let (attr, lo, hi) = (uhs(attr)?, uhs(lo)?, uhs(hi)?);
             let ev = parse_value(ev)?;
             let (r, l, u) = range_texts(&attr, &lo, &hi, li == "1", ui == "1");
-            // the parser needs brackets of one kind: ask with both kinds when they differ
-            if li != ui {
-                return None;
-            }
             Some(Reply::oracle(vec![real_match(&r, &ev), real_match(&l, &ev), real_match(&u, &ev)]))
         }
         ("o.c31", [kind, q, ev]) if kind == "leaf" => {
@@ -472,10 +467,10 @@ pub fn generate(sink: &mut Sink, rng: &mut Rng, n: u64) {
             const SAFE: &[&str] = &["5", "10", "1.5", "abc", "b", "9", "0", "-1", "*", "foo", "z", "2", "prod", "dev", "y", "a", "100"];
             let lo = *rng.pick(SAFE);
             let hi = *rng.pick(SAFE);
-            let incl = rng.chance(1, 2);
             let ev = show_value(&gen_event(rng));
-            let b = if incl { "1" } else { "0" };
-            sink.emit("o.c31", &["range".to_string(), hs(attr), hs(lo), hs(hi), b.to_string(), b.to_string(), ev]);
+            let b = |x: bool| if x { "1".to_string() } else { "0".to_string() };
+            // each bracket is inclusive or exclusive on its own (mixed brackets are accepted since /repo 21ebbb7)
+            sink.emit("o.c31", &["range".to_string(), hs(attr), hs(lo), hs(hi), b(rng.chance(1, 2)), b(rng.chance(1, 2)), ev]);
         }
     }
 }
